@@ -47,18 +47,21 @@ def addr_claim(dom: Any, val: Any, t: Any, fname: str, addr_tab: Dict[str, int])
     return z3.Or(*alts)
 
 
-def kinds_claim(dom: Any, types: Sequence[Any], t: Any) -> Optional[Any]:
+def kinds_claim(dom: Any, types: Sequence[Any], t: Any, which: str = "all") -> Optional[Any]:
+    """The four implications of C07; which in {"all", "nonappl" (Pay, Axfer), "appl" (Update, Delete)}."""
     K = _kind_names()
     te, oc = dom.field("TypeEnum", t), dom.field("OnCompletion", t)
     parts = []
-    if K["Pay"] not in types:
-        parts.append(te != 1)
-    if K["Axfer"] not in types:
-        parts.append(te != 4)
-    if K["Upd"] not in types:
-        parts.append(z3.Not(z3.And(te == 6, oc == 4)))
-    if K["Del"] not in types:
-        parts.append(z3.Not(z3.And(te == 6, oc == 5)))
+    if which in ("all", "nonappl"):
+        if K["Pay"] not in types:
+            parts.append(te != 1)
+        if K["Axfer"] not in types:
+            parts.append(te != 4)
+    if which in ("all", "appl"):
+        if K["Upd"] not in types:
+            parts.append(z3.Not(z3.And(te == 6, oc == 4)))
+        if K["Del"] not in types:
+            parts.append(z3.Not(z3.And(te == 6, oc == 5)))
     if not parts:
         return None
     return z3.And(*parts)
@@ -76,9 +79,10 @@ def ctx_claims(dom: Any, ctx: Any, t: Any, addr_tab: Dict[str, int], keys: Seque
     """Claims of one BlockTransactionContext about the transaction at slot term t."""
     out: List[Tuple[str, Any]] = []
     if "kinds" in keys:
-        c = kinds_claim(dom, ctx.transaction_types, t)
-        if c is not None:
-            out.append((tag + "transaction_types", c))
+        for which in ("nonappl", "appl"):
+            c = kinds_claim(dom, ctx.transaction_types, t, which)
+            if c is not None:
+                out.append((tag + f"transaction_types[{which}]", c))
     if "fee" in keys:
         c = fee_claim(dom, ctx, t)
         if c is not None:
